@@ -291,8 +291,28 @@ func onCycle(g map[string]map[string]bool) []string {
 	return r
 }
 
-func c07eval(w *W, c *C, atoms []c07atom, style int) {
+func c07eval(w *W, c *C, atoms []c07atom, style int) { c07evalWith(w, c, atoms, style, "") }
+
+// c07evalWith: the same verdict with defects of other classes (scope rule, missing parameter, missing service)
+// next to the graph under test, on elements that are disjoint from it: the cycle report must not depend on them.
+func c07evalWith(w *W, c *C, atoms []c07atom, style int, extra string) {
 	m := c07build(atoms, style)
+	allowed := []string{"output.ValidateCircularDeps:"}
+	if strings.Contains(extra, "scope") {
+		m.cfg.Services = append(m.cfg.Services,
+			Service{Name: "aaShared", Constructor: P("NewThing"), Scope: P("shared"), Args: []any{"@aaCtx"}},
+			Service{Name: "aaCtx", Constructor: P("NewThing"), Scope: P("contextual")})
+		allowed = append(allowed, "output.ValidateServicesScopes:")
+	}
+	if strings.Contains(extra, "param") {
+		m.cfg.Services = append(m.cfg.Services, Service{Name: "aaNeedsParam", Constructor: P("NewThing"), Args: []any{"%aaNoSuchParam%"}})
+		m.cfg.Params = append(m.cfg.Params, Param{"aaDangling", "x%aaNoSuchParam2%"})
+		allowed = append(allowed, "output.ValidateParamsExist:")
+	}
+	if strings.Contains(extra, "service") {
+		m.cfg.Services = append(m.cfg.Services, Service{Name: "aaNeedsSvc", Constructor: P("NewThing"), Args: []any{"@aaNoSuchService"}})
+		allowed = append(allowed, "output.ValidateServicesExist:")
+	}
 	y := m.cfg.YAML()
 	files := []File{{"c.yaml", y}}
 	br := w.Build(files)
@@ -316,12 +336,24 @@ func c07eval(w *W, c *C, atoms []c07atom, style int) {
 		c.Count("acyclic")
 	}
 	for _, l := range lines {
-		if !strings.HasPrefix(l, "output.ValidateCircularDeps:") {
+		ok := false
+		for _, a := range allowed {
+			ok = ok || strings.HasPrefix(l, a)
+		}
+		if !ok {
 			c.Violation("foreign-diagnostic", "unexpected diagnostic for "+desc+": "+l, FilesMap(files), nil)
 		}
 	}
+	if extra != "" {
+		desc += " [next to defects of other classes: " + extra + "]"
+		for _, a := range allowed[1:] {
+			if len(LinesWithPrefix(lines, a)) == 0 {
+				c.Violation("co-defect-not-reported", "the defect of class "+a+" placed next to ("+desc+") is not reported:\n"+br.Out, FilesMap(files), nil)
+			}
+		}
+	}
 	if len(cyc) == 0 {
-		if br.Exit != 0 || len(cl) > 0 {
+		if (extra == "" && br.Exit != 0) || (extra != "" && br.Exit == 0) || len(cl) > 0 {
 			c.Violation("acyclic-rejected", "acyclic configuration ("+desc+") rejected:\n"+br.Out, FilesMap(files), nil)
 		}
 		return
@@ -418,6 +450,29 @@ func init() {
 						}
 					})
 				})
+			}
+			// defects of other classes next to the graph: every atom set of size <= 2 x {scope, missing parameter,
+			// missing service, all three}; all parameter graphs with all three
+			for size := 0; size <= 2; size++ {
+				combos(n, size, func(idx []int) {
+					sel := make([]c07atom, len(idx))
+					for i, x := range idx {
+						sel[i] = c07atoms[x]
+					}
+					for _, extra := range []string{"scope", "param", "service", "scope+param+service"} {
+						extra := extra
+						w.Case(fmt.Sprintf("with-%s/k%d/%v", extra, size, idx), func(c *C) { c07evalWith(w, c, sel, 0, extra) })
+					}
+				})
+			}
+			for mask := 0; mask < 512; mask++ {
+				var sel []c07atom
+				for b := 0; b < 9; b++ {
+					if mask&(1<<uint(b)) != 0 {
+						sel = append(sel, c07atom{"pp", b / 3, b % 3})
+					}
+				}
+				w.Case(fmt.Sprintf("with-all/params/%03x", mask), func(c *C) { c07evalWith(w, c, sel, 1, "scope+param+service") })
 			}
 			// all parameter graphs, both realisations; all service @ graphs
 			for style := 0; style < 4; style++ {
